@@ -26,7 +26,8 @@ func nugetParse(s string) (nugetVer, bool) {
 	var v nugetVer
 	for i := 0; i < 4; i++ {
 		if m[i+1] != "" {
-			n, err := strconv.ParseInt(m[i+1], 10, 64)
+			// NuGet.Versioning reads the numbers as Int32.
+			n, err := strconv.ParseInt(m[i+1], 10, 32)
 			if err != nil {
 				return nugetVer{}, false
 			}
@@ -56,12 +57,21 @@ func allDigits(s string) bool {
 
 func NuGetValid(s string) bool { _, ok := nugetParse(s); return ok }
 
+// int32Label reports whether a release label is numeric for NuGet: it is
+// when Int32.TryParse succeeds; digits that do not fit are text.
+func int32Label(s string) (int64, bool) {
+	if !allDigits(s) {
+		return 0, false
+	}
+	n, err := strconv.ParseInt(s, 10, 32)
+	return n, err == nil
+}
+
 func nugetLabelCmp(a, b string) int {
-	an, bn := allDigits(a), allDigits(b)
+	x, an := int32Label(a)
+	y, bn := int32Label(b)
 	switch {
 	case an && bn:
-		x, _ := strconv.ParseInt(a, 10, 64)
-		y, _ := strconv.ParseInt(b, 10, 64)
 		if x < y {
 			return -1
 		} else if x > y {
@@ -128,8 +138,7 @@ func NuGetCompare2(a, b string) (int, bool) {
 		}
 		out = append(out, lk{1, 0, ""})
 		for _, l := range v.labels {
-			if allDigits(l) {
-				n, _ := strconv.ParseInt(l, 10, 64)
+			if n, ok := int32Label(l); ok {
 				out = append(out, lk{3, n, ""})
 			} else {
 				out = append(out, lk{4, 0, strings.ToUpper(l)})
